@@ -329,10 +329,12 @@ package bgv
 // ---- F43: the scale-invariant tensoring asked the nil key-set interface for the key)
 //@ afunc Evaluator.modUpAndNTT
 //@   trusted opaque at the abstract level (basis extension of the operands to the auxiliary ring): writes its output element only
-//@   assigns ctQ1
+//@   assigns eval.buffQ[0]
+//@   clobbers ctQ1
 //@ afunc Evaluator.tensorLowDeg
 //@   trusted opaque at the abstract level (the tensor on both bases): writes its output elements only
-//@   assigns ct2Q0, ct2Q1
+//@   assigns eval.buffQ[0], eval.buffQ[1]
+//@   clobbers ct2Q0, ct2Q1
 //@ afunc Evaluator.quantize
 //@   trusted opaque at the abstract level (division by Q, multiplication by T): writes its output polynomials only
 //@   assigns c2Q1, c2Q2
